@@ -292,6 +292,39 @@ def fn_trait_call(I, c):
     return I.call_value(c.args[0], list(tup.f) if isinstance(tup, St) else [tup])
 
 
+@model_re(r'^(std::option::)?Option::and$')
+def opt_and(I, c):
+    return c.args[1] if c.args[0].var == 'Some' else NONE()
+
+
+@model_re(r'^(std::option::)?Option::or$')
+def opt_or(I, c):
+    return c.args[0] if c.args[0].var == 'Some' else c.args[1]
+
+
+@model_re(r'^(std::option::)?Option::or_else$')
+def opt_or_else(I, c):
+    return c.args[0] if c.args[0].var == 'Some' else I.call_value(c.args[1], [])
+
+
+@model_re(r'^(std::option::)?Option::xor$')
+def opt_xor(I, c):
+    a, b = c.args[0], c.args[1]
+    if a.var == 'Some' and b.var == 'None':
+        return a
+    if a.var == 'None' and b.var == 'Some':
+        return b
+    return NONE()
+
+
+@model_re(r'^(std::option::)?Option::zip$')
+def opt_zip(I, c):
+    a, b = c.args[0], c.args[1]
+    if a.var == 'Some' and b.var == 'Some':
+        return Some(St('()', [a.f[0], b.f[0]]))
+    return NONE()
+
+
 @model_re(r'^(std::option::)?Option::filter$')
 def opt_filter(I, c):
     o = c.args[0]
